@@ -45,7 +45,7 @@ std::string toStr(const MV& v) {
 }
 
 const long long IB[] = {0, 1, -1, 2, 7, 42, -100, INT_MAX, INT_MIN, (long long)INT_MAX + 1, (long long)INT_MIN - 1, LLONG_MAX, LLONG_MIN, 1000000007LL, 4294967295LL, 4294967296LL};
-const double DB[] = {0.0, 1.0, -1.0, 0.5, -0.5, 2.75, 1e9, -1e9, 3e9, 1e18, 1e-7, 123456.789, 2147483647.0, -2147483648.0, HUGE_VAL, -HUGE_VAL, -0.0, 1.7976931348623157e308, 4.9e-324};
+const double DB[] = {0.0, 1.0, -1.0, 0.5, -0.5, 2.75, 1e9, -1e9, 3e9, 1e18, 1e-7, 123456.789, 2147483647.0, -2147483648.0, HUGE_VAL, -HUGE_VAL, -0.0, 1.7976931348623157e308, 4.9e-324, 1e19, 1.5e19, 9223372036854775808.0};
 
 void fail(Ctx& ctx, const char* kind, const std::string& d) { ctx.fail(kind, d); }
 
@@ -213,7 +213,7 @@ void pbt_run(const Case& cs, Ctx& ctx) {
     else if (nm == "uint") SETSCALAR(Variant::uintType, uint, u, (a3 % 3 == 0) ? (a3 % 2 ? 4294967295u : 0u) : (uint)(a3 * 2654435761u))
     else if (nm == "int64") SETSCALAR(Variant::int64Type, int64, i, (a3 % 2 == 0) ? IB[a3 % 16] : (long long)a3 * 1000003LL * 1000003LL)
     else if (nm == "uint64") SETSCALAR(Variant::uint64Type, uint64, u, (a3 % 3 == 0) ? 18446744073709551615ull : (unsigned long long)a3 * 11400714819323198485ull)
-    else if (nm == "double") SETSCALAR(Variant::doubleType, double, d, (a3 % 2 == 0) ? DB[a3 % 19] : (double)a3 / 8.0 - 30.0)
+    else if (nm == "double") SETSCALAR(Variant::doubleType, double, d, (a3 % 2 == 0) ? DB[(a3 / 2) % 22] : (double)a3 / 8.0 - 30.0)
     else if (nm == "str") { String s(d.data(), d.size()); if (viaCtor) { delete v[i]; v[i] = new Variant(s); } else V = s; M = MV(); M.t = Variant::stringType; M.s = d; fresh(i); }
     else if (nm == "mklist" || nm == "mkarray") {
       bool isList = nm == "mklist";
